@@ -142,7 +142,10 @@ func (i *interpreter) fromNative(rv reflect.Value) value {
 	panic(unsupported{"native bridge: result of type " + t.String()})
 }
 
+var nativeRegistered = map[string]bool{}
+
 func regNative(name string, fn interface{}) {
+	nativeRegistered[name] = true
 	fv := reflect.ValueOf(fn)
 	ft := fv.Type()
 	prev := intrinsics[name]
@@ -293,4 +296,14 @@ func init() {
 		}
 		return fmt.Sprint(out...)
 	})
+	// the generated table (cmd/genbridge): every other pure function of strings,
+	// strconv, unicode, utf8, bytes, path, math, bits, hex, html, url with plain
+	// parameter types; a dedicated model registered earlier stays the fallback
+	// for symbolic arguments
+	for name, fn := range generatedNatives() {
+		if nativeRegistered[name] {
+			continue
+		}
+		regNative(name, fn)
+	}
 }
